@@ -9,12 +9,25 @@ from .. import REPO, import_fsic, probes, ref_solver, scripts, spans
 from . import solver as S
 
 
+STRING_LABELLED = ['list_str', 'list_str_sp', 'np_str', 'pd_index_str']
+
+
 def generate(rng, idx, tier, variant):
-    prog = scripts.gen_program(rng, max_eq=4, max_lag=rng.choice([0, 1, 2, 3]), max_lead=rng.choice([0, 0, 1, 2, 3]), allow_funcs=True)
+    max_lag, max_lead = rng.choice([0, 1, 2, 3]), rng.choice([0, 0, 1, 2, 3])
+    sp_type = rng.choice(STRING_LABELLED if variant == 'frame_labels' else spans.TYPES)
+    sp_origin = rng.choice([0, 2, 5])
+    labels = None
+    if sp_type in STRING_LABELLED and (variant == 'frame_labels' or rng.random() < 0.3):
+        # terms that address a period by its label (read a labelled period, average over a label slice, assign a
+        # labelled period): drawn from the first periods of the span, which every span of this run has
+        labels = [str(x) for x in spans.elements(spans.make_span({'type': sp_type, 'n': max_lag + max_lead + 1, 'origin': sp_origin}))]
+    prog = scripts.gen_program(rng, max_eq=4, max_lag=max_lag, max_lead=max_lead, allow_funcs=True, labels=labels)
     build = probes.build_options(rng, prog)
     lags, leads = probes.expected_lags_leads(prog['lags'], prog['leads'], build)
-    n = lags + leads + rng.randint(1, 6)
-    sp = {'type': rng.choice(spans.TYPES), 'n': n, 'origin': rng.choice([0, 2, 5])}
+    n = max(lags + leads, max_lag + max_lead) + rng.randint(1, 6)
+    sp = {'type': sp_type, 'n': n, 'origin': sp_origin}
+    label_terms = prog['label_terms'] if labels else {'reads': [], 'slices': [], 'lhs': []}
+    has_labels = any(label_terms.values())
     spec = {
         'kind': 'parser',
         'script': prog['script'],
@@ -27,6 +40,7 @@ def generate(rng, idx, tier, variant):
         'leads_script': prog['leads'],
         'declared': prog['declared'],
         'build': build,
+        'label_terms': label_terms,
         'span': sp,
         'init': scripts.gen_data(rng, prog, n),
         'init_via': rng.choice(['dict', 'dict', 'kwargs', 'kwargs-shared']),
@@ -39,7 +53,7 @@ def generate(rng, idx, tier, variant):
         if rng.random() < 0.08:
             # one array of the caller's assigned, whole, to an endogenous and to another variable (attribute or key path)
             ops.append({'op': 'assign_shared', 'k': rng.randrange(8), 'via': rng.choice(['attr', 'item', 'replace_values'])})
-        if ops and rng.random() < 0.2:
+        if ops and rng.random() < 0.2 and not has_labels:
             # history: the model is replaced by a reindexed version of itself (shifted, shrunk or grown)
             dn = rng.choice([0, 0, -1, -2, 1, 2])
             n2 = max(lags + leads + 1, n + dn)
@@ -78,14 +92,71 @@ def _norm(i, n):
     return i + n if i < 0 else i
 
 
-def _judge_reads(sink, spec, n, lags, leads, endo, chk, P):
-    """Walk the recorded accesses. Inside an evaluation pass of a feasible period every read must be at a written offset."""
+def label_positions(spec, span):
+    """Where the labelled terms of the script point in this span: ({name: {position}}, {name: {(lo, hi)}}, {name: position})."""
+    lt = spec.get('label_terms') or {'reads': [], 'slices': [], 'lhs': []}
+    labs = [str(x) for x in spans.elements(span)]
+
+    def pos(lab):
+        return labs.index(lab) if lab in labs else None
+
+    reads, slices, lhs = {}, {}, {}
+    for nm, lab in lt['reads']:
+        if pos(lab) is not None:
+            reads.setdefault(nm, set()).add(pos(lab))
+    for nm, la, lb in lt['slices']:
+        if pos(la) is not None and pos(lb) is not None:
+            slices.setdefault(nm, set()).add((pos(la), pos(lb)))
+    for nm, lab in lt['lhs']:
+        if pos(lab) is not None:
+            lhs[nm] = pos(lab)
+    return reads, slices, lhs
+
+
+def _judge_reads(sink, spec, n, lags, leads, endo, chk, P, span=None, chk10=None):
+    """Walk the recorded accesses. Inside an evaluation pass of a feasible period every read must be at a written offset
+    (or at the period a labelled term names), every write at (endogenous, t) (or at the period a labelled left-hand side
+    names) - and every labelled term of the script must have been served from the period carrying its label."""
     reads = {k: set(v) for k, v in spec['reads'].items()}
+    lab_reads, lab_slices, lab_lhs = label_positions(spec, span) if span is not None else ({}, {}, {})
+    chk10 = chk10 or (lambda *a, **k: None)
     cur = None  # (hook, raw t) of the seam call in progress
+    seen = None
     maxlag_hit = maxlead_hit = False
+
+    def close_block(t):
+        # every labelled term was evaluated in this pass: each must have addressed its own period
+        if seen is None:
+            return
+        tn_ = _norm(t, n)
+        if not (lags <= tn_ <= n - 1 - leads) or seen.get('raised'):
+            return
+        for nm, ps in lab_reads.items():
+            for p_ in ps:
+                ok_ = (nm, p_) in seen['r']
+                chk('reads/labelled-term-read-its-period', ok_, {'name': nm, 'position': p_, 't': t})
+                chk10('generated-code/labelled-term-addresses-its-period', ok_, {'name': nm, 'position': p_, 't': t})
+        for nm, ss in lab_slices.items():
+            for lo, hi in ss:
+                ok_ = (nm, lo, hi) in seen['s']
+                chk('reads/label-slice-term-read-its-periods', ok_, {'name': nm, 'from': lo, 'to': hi, 't': t})
+                chk10('generated-code/label-slice-term-addresses-its-periods', ok_, {'name': nm, 'from': lo, 'to': hi, 't': t})
+        for nm, p_ in lab_lhs.items():
+            ok_ = (nm, p_) in seen['w']
+            chk('writes/labelled-left-hand-side-assigns-its-period', ok_, {'name': nm, 'position': p_, 't': t})
+            chk10('generated-code/labelled-left-hand-side-addresses-its-period', ok_, {'name': nm, 'position': p_, 't': t})
+
     for ev in sink:
         if ev[0] == '@':
-            cur = (ev[2], ev[3]) if ev[1] == 'begin' else None
+            if ev[1] == 'begin':
+                cur = (ev[2], ev[3])
+                seen = {'r': set(), 's': set(), 'w': set(), 'raised': False} if ev[2] == 'eval' else None
+            else:
+                if cur is not None and cur[0] == 'eval':
+                    if len(ev) > 4 and ev[4]:
+                        seen['raised'] = True
+                    close_block(cur[1])
+                cur, seen = None, None
             continue
         name, kind, idx = ev
         if cur is None or cur[0] != 'eval':
@@ -95,14 +166,28 @@ def _judge_reads(sink, spec, n, lags, leads, endo, chk, P):
         if not (lags <= tn <= n - 1 - leads):
             continue
         if not isinstance(idx, (int, np.integer)):
-            chk('reads/non-integer-index', False, {'name': name, 'index': str(idx)})
+            # a label slice term reads a block of periods in one go
+            m_ = __import__('re').fullmatch(r'slice\((-?\d+), (-?\d+), (None|1)\)', str(idx))
+            ok_ = kind == 'r' and m_ is not None and (int(m_.group(1)), int(m_.group(2)) - 1) in lab_slices.get(name, ())
+            if ok_:
+                seen['s'].add((name, int(m_.group(1)), int(m_.group(2)) - 1))
+            chk('reads/non-integer-index', ok_, {'name': name, 'index': str(idx)})
             continue
         idx = int(idx)
         if kind == 'w':
+            if name in lab_lhs:
+                seen['w'].add((name, _norm(idx, n)))
+                chk('writes/labelled-left-hand-side-assigns-its-period', _norm(idx, n) == lab_lhs[name], {'name': name, 'index': idx, 'want': lab_lhs[name], 't': t})
+                chk10('generated-code/labelled-left-hand-side-addresses-its-period', _norm(idx, n) == lab_lhs[name], {'name': name, 'index': idx, 'want': lab_lhs[name], 't': t})
+                continue
             chk('writes/only-endogenous-at-t', name in endo and idx == t, {'name': name, 'index': idx, 't': t})
             continue
         p = _norm(idx, n)
         off = idx - t
+        if p in lab_reads.get(name, ()) and 0 <= idx < n:
+            seen['r'].add((name, p))
+            if off not in reads.get(name, ()):
+                continue  # (the labelled term's own read: at its period, wherever t is)
         chk('reads/inside-span', 0 <= p < n and (-n <= idx < n), {'name': name, 'index': idx, 't': t, 'n': n})
         chk('reads/no-wrap-round', (t >= 0) == (idx >= 0), {'name': name, 'index': idx, 't': t, 'n': n})
         chk('reads/at-written-offset', off in reads.get(name, ()), {'name': name, 'offset': off, 'written': sorted(reads.get(name, ())), 't': t})
@@ -271,12 +356,13 @@ def execute(schedule, ctx):
         bad = [c for c in changed if c[0] in nonendo]
         chk('frame/non-endogenous-changed', not bad, {'changed': bad[:8], 'op': op['op'], 'opts': opts})
         # ---- frame: only cells of the requested periods may change
-        bad = [c for c in changed if c[1] not in positions]
+        lhs_cells = {(nm_, p_) for nm_, p_ in label_positions(spec, span)[2].items()}  # (what a labelled left-hand side assigns)
+        bad = [c for c in changed if c[1] not in positions and tuple(c) not in lhs_cells]
         chk('frame/other-period-changed', not bad, {'changed': bad[:8], 'positions': positions, 'op': op['op'], 'opts': opts})
         if out['kind'] == 'raise' and len(positions) > 1 and not via:  # (a linker does not call the submodel's own hooks: the seam log cannot say how far it got)
             # the run stopped part-way: periods after the one being solved (or about to be solved) must be as they were
             reached = max([r['tn'] for r in ctl.log] + [positions[0] - 1]) + 1
-            later = [c for c in changed if c[1] > reached]
+            later = [c for c in changed if c[1] > reached and tuple(c) not in lhs_cells]
             chk('frame/later-period-changed-after-failure', not later, {'changed': later[:8], 'stopped-at-or-before': reached, 'positions': positions})
         # ---- up-front rejections change nothing at all
         rejected = False
@@ -327,7 +413,18 @@ def execute(schedule, ctx):
                     chk('frame/callers-array-changed', False, {'passed-for': nm_})
                 arr_[:] = pristine_
         # ---- reads and writes observed through the recording arrays
-        _judge_reads(sink, spec, n, lags, leads, endo, chk, ctx.probe)
+        _judge_reads(sink, spec, n, lags, leads, endo, chk, ctx.probe, span, lambda sig, ok, detail=None: ctx.check('C10', sig, ok, detail))
+        if any((spec.get('label_terms') or {}).values()):
+            ctx.probe('script-with-labelled-terms')
+            # every label the script names is in the span: the generated code's own label access must find each one (a
+            # lookup failure - bare, or wrapped in the solver's SolutionError - says the code asked for another label)
+            chain, e_ = [], out.get('exc') if out['kind'] == 'raise' else None
+            while e_ is not None and len(chain) < 6:
+                chain.append(e_)
+                e_ = e_.__cause__ or e_.__context__
+            lost = [type(x).__name__ + ': ' + str(x)[:80] for x in chain if isinstance(x, KeyError) and not (infeasible or rejected)]
+            if not interrupted:
+                ctx.check('C10', 'generated-code/label-in-the-span-not-found', not lost, {'chain': lost, 'terms': spec['label_terms'], 'op': op['op']})
 
         ctx.log(step, op['op'], op.get('t'), op.get('start'), op.get('end'), cls_out, [str(x) for x in post['status'].tolist()], post['iterations'].tolist(), len(sink))
         ctx.outcome(op['op'], f"{cls_out}:{'infeasible' if infeasible else 'feasible'}:{'rej' if rejected else ''}")
